@@ -207,6 +207,10 @@ def c07(h):
             ms = num_param(o, "pos/StakeMinimum", 1000000)
             if a in v1 and t1 < t0 and t1 < ms and not (v1[a][0] == 0 and t1 == 0):
                 return i, "%s slashed below the minimum stake but not force-unstaked with the remainder burned" % a, {"kind": "no-force-unstake"}
+        # exact amount when exactly one slash source hits a validator in this block
+        bad = c07_exact(h, i, op, p, o, v0, v1)
+        if bad is not None:
+            return bad
         awards = sum(int(x) for x in p.kv("W").values())
         dS = int(o.sec["S"]) - int(p.sec["S"])
         if dS != awards - burned:
@@ -214,6 +218,60 @@ def c07(h):
         dpool = b1.get(m["pool"], 0) - b0.get(m["pool"], 0)
         if dpool != -burned:
             return i, "staked pool moved by %d, stake removed %d" % (dpool, burned), {"kind": "burn-not-exact"}
+    return None
+
+
+def c07_exact(h, i, op, p, o, v0, v1):
+    ms = num_param(p, "pos/StakeMinimum", 1000000)
+    W = num_param(p, "pos/SignedBlocksWindow", 100)
+    height = int(op.split(" ")[1])
+    burns = {a: int(x) for a, x in p.kv("B").items()}
+    ev = {}
+    for e in [x for x in op.split("ev=")[1].split(",") if x]:
+        a, eh, et, pw = e.split(":")
+        ev.setdefault(a, []).append(int(pw))
+    votes = {}
+    for vt in [x for x in op.split("votes=")[1].split(" ")[0].split(",") if x]:
+        a, pw, sg = vt.split(":")
+        votes[a] = (int(pw), sg == "1")
+    g0 = p.kv("G")
+    dt = float_dec(param(p, "pos/SlashFractionDowntime") or '"0"')
+    ds = float_dec(param(p, "pos/SlashFractionDoubleSign") or '"0"')
+    minsigned_raw = param(p, "pos/MinSignedPerWindow")
+    msw = int(round_half_even(int(float_dec(minsigned_raw) * W), 10 ** 18)) if minsigned_raw else 0
+    for a, (st, j, t0, ut) in v0.items():
+        if st == 0:
+            continue
+        sources = []
+        if a in burns:
+            sources.append(("burn", (t0 // POW if st == 2 else 0), burns[a]))
+        if a in votes and a in g0 and not j:
+            start, off, ju, tomb, ctr = g0[a].split("/")
+            pw, signed = votes[a]
+            # would this vote push the counter over the threshold? (only when the previous bit at the ring index was unset)
+            idx = int(off) % W
+            bit = p.kv("M").get(a + idx.to_bytes(8, "little").hex(), "0") == "1"
+            newctr = int(ctr) + (1 if (not signed and not bit) else 0) - (1 if (signed and bit) else 0)
+            if height > int(start) + W and newctr > W - msw:
+                sources.append(("downtime", pw, dt))
+        if a in ev:
+            sources.append(("evidence", ev[a][0], ds))
+        if len(sources) != 1 or (a in ev and len(ev[a]) > 1):
+            continue
+        kind, pw, f = sources[0]
+        amount = min(pw * POW * f // 10 ** 18, t0) if f >= 0 else 0
+        t1 = t0 - amount
+        exp_status, exp_tokens = st, t1
+        if kind == "evidence":
+            exp_status, exp_tokens = 0, 0
+        elif amount > 0 and t1 < ms:
+            exp_status, exp_tokens = 0, 0
+        got = v1.get(a)
+        if got is None:
+            continue
+        if (got[0], got[2]) != (exp_status, exp_tokens):
+            return i, "%s slash of %s (stake %d, power %d, fraction %d/10^18): expected stake %d status %d, got stake %d status %d" % (
+                kind, a, t0, pw, f, exp_tokens, exp_status, got[2], got[0]), {"kind": "slash-not-exact", "source": kind}
     return None
 
 
@@ -313,6 +371,14 @@ def c09(h):
                 if a in vs and vs[a][1]:
                     return i, "jailed validator %s is in Tendermint's set after the update" % a, {"kind": "jailed-has-power"}
         gi = o.kv("G")
+        if op.startswith("BB ") and o.result == "ok":
+            for e in [x for x in op.split("ev=")[1].split(",") if x]:
+                a = e.split(":")[0]
+                g = gi.get(a)
+                if g is None or g.split("/")[3] != "1" or a not in vs or not vs[a][1]:
+                    return i, "validator %s convicted of double signing is not tombstoned and jailed (signing info %s, validator %s)" % (a, g, vs.get(a)), {"kind": "double-sign-not-tombstoned"}
+                if vs[a][0] != 0 or vs[a][2] != 0:
+                    return i, "validator %s convicted of double signing keeps stake %d / status %d" % (a, vs[a][2], vs[a][0]), {"kind": "double-sign-stake-kept"}
         for a, g in gi.items():
             if g.split("/")[3] == "1":
                 tomb.add(a)
@@ -344,11 +410,13 @@ def jail_ns(g):
 def c10(h):
     m = mods(h)
     L = obs_list(h)
+    last_proposer = None        # proposer named by the previous BeginBlock REQUEST
     for n in range(1, len(L)):
         i, op, o = L[n]
         if not op.startswith("BB "):
             continue
         _, _, p = L[n - 1]
+        req_prev, last_proposer = last_proposer, op.split(" ")[3]
         height = int(op.split(" ")[1])
         b0, b1 = balances(p), balances(o)
         v0, v1 = validators(p), validators(o)
@@ -356,7 +424,7 @@ def c10(h):
         if o.items("W"):
             return i, "award queue not empty after BeginBlock", {"kind": "awards-left"}
         fees = b0.get(m["fee"], 0) if height > 1 else 0
-        prevprop = p.sec.get("R", "-")
+        prevprop = req_prev if req_prev is not None else p.sec.get("R", "-")
         exp = dict(b0)
         if height > 1:
             exp[m["fee"]] = 0
